@@ -1,4 +1,5 @@
 import Smpp.Model.Sms
+import Smpp.Spec.Gsm0340
 import Smpp.Generated.SmsFacts
 import Smpp.Generated.Gsm7Facts
 import Driver.Gsm7Ops
@@ -36,6 +37,68 @@ def smsOp (op : String) (args : List String) : Option String :=
         | .err _ => "err"
         | .panic _ => "panic"
       some s!"ok {p.name} {" ".intercalate (p.vals.map showFVal)} -> {m}"
+  | _, _ => none
+
+end Driver
+
+namespace Driver
+open Smpp Smpp.Sms Smpp.Generated
+def parseDigits (s : String) : Option (List Nat) :=
+  if s == "-" then some [] else s.toList.mapM fun c => if '0' ≤ c ∧ c ≤ '9' then some (c.toNat - 48) else none
+
+def parseInt? (s : String) : Option Int :=
+  if s.startsWith "-" then (s.drop 1).toString.toNat?.map fun n => -(n : Int) else s.toNat?.map fun n => (n : Int)
+
+def parseSpecAddr (ton npi kind val : String) : Option Spec.Gsm0340.Address := do
+  let t ← ton.toNat?
+  let n ← npi.toNat?
+  if kind == "n" then
+    let ds ← parseDigits val
+    pure ⟨t, n, .digits ds⟩
+  else if kind == "a" then
+    let ss ← parseRunes val
+    pure ⟨t, n, .alpha ss⟩
+  else none
+
+def parseSpecTime (s : String) : Option Spec.Gsm0340.TimeStamp :=
+  match s.splitOn "." with
+  | [y, mo, d, h, mi, sec, q] => do
+    pure ⟨← y.toNat?, ← mo.toNat?, ← d.toNat?, ← h.toNat?, ← mi.toNat?, ← sec.toNat?, ← parseInt? q⟩
+  | _ => none
+
+def parseSpecVp (s : String) : Option Spec.Gsm0340.Validity :=
+  if s == "none" then some .absent
+  else if s.startsWith "r" then (s.drop 1).toString.toNat?.map .relative
+  else if s.startsWith "e" then (fromHex (s.drop 1).toString).map .enhanced
+  else if s.startsWith "a" then (parseSpecTime (s.drop 1).toString).map .absolute
+  else none
+
+def smsOnBytes (b : Bytes) : String :=
+  match unmarshal smsEnv b with
+  | .err _ => "err"
+  | .panic _ => "panic"
+  | .ok p =>
+    let m := match marshal smsEnv p with
+      | .ok o => "ok " ++ toHex o
+      | .err _ => "err"
+      | .panic _ => "panic"
+    s!"ok {p.name} {" ".intercalate (p.vals.map showFVal)} -> {m}"
+
+def smsSpecOp (op : String) (args : List String) : Option String :=
+  match op, args with
+  | "smsd", [scton, scnpi, scd, fo, oaton, oanpi, oakind, oaval, pid, dcs, ts, udl, ud] => do
+    let sc ← parseSpecAddr scton scnpi "n" scd
+    let oa ← parseSpecAddr oaton oanpi oakind oaval
+    let t ← parseSpecTime ts
+    let u ← fromHex ud
+    let b := Spec.Gsm0340.deliver ⟨sc, ← fo.toNat?, oa, ← pid.toNat?, ← dcs.toNat?, t, ← udl.toNat?, u⟩
+    some s!"{toHex b} | {smsOnBytes b}"
+  | "smss", [fo, mr, daton, danpi, dakind, daval, pid, dcs, vp, udl, ud] => do
+    let da ← parseSpecAddr daton danpi dakind daval
+    let v ← parseSpecVp vp
+    let u ← fromHex ud
+    let b := Spec.Gsm0340.submit ⟨← fo.toNat?, ← mr.toNat?, da, ← pid.toNat?, ← dcs.toNat?, v, ← udl.toNat?, u⟩
+    some s!"{toHex b} | {smsOnBytes b}"
   | _, _ => none
 
 end Driver
